@@ -24,26 +24,47 @@ from extract import finite_diff as extract_fd
 
 RULE = ('finite_diff: method x pad_mode x axis length n (1..9, every n listed separately because '
         'boundary rows overlap for n<=5) x (dx, pad_const) class x dtype, each real configuration '
-        'decided by its full matrix (unit vectors) and offset; operators: class x method x '
-        'pad_mode x ndim x shape class x dtype x action (call/adjoint/derivative). A case is '
-        'non-trivial when the expected output is not identically zero; distinct = distinct '
-        'signatures among non-trivial cases.')
-TRUSTED = ['translator tools/extract/finite_diff.py (AST of finite_diff and the module tables -> '
-           'Gen/FiniteDiff.lean); every extracted leaf is also exercised by the correspondence',
+        'decided by its full matrix (unit vectors) and offset against the reference (non-adjoint '
+        'pad modes: textbook stencil on the extended array; the 12 adjoint-mode leaves: minus the '
+        'transpose of the reference matrix of the partner leaf, i.e. they are checked once, by the '
+        'transpose relation); direct call forms (array-like/layout/negative axis/out=None/N-d); '
+        'operators: class x method x pad_mode x ndim x shape class x dtype x space variant x '
+        'action (call/adjoint/derivative/is_linear). A case is non-trivial when the expected '
+        'output is not identically zero; distinct = distinct signatures among non-trivial cases.')
+TRUSTED = ['translator tools/extract/finite_diff.py: REGENERATES (AST -> Gen/FiniteDiff.lean) the 3 '
+           'interior bands, the 30 boundary leaves, the size guards, _ADJ_METHOD/_ADJ_PADDING, the '
+           'supported lists, the pad modes Laplacian refuses, and per class the flags "linear rule '
+           'in __init__" / "is_linear guard in .adjoint"; everything else of diff_ops.py that the '
+           'model mirrors is HAND-WRITTEN in Model/FiniteDiff.lean (prologue of finite_diff, '
+           '`/ dx`, size-check semantics, line-wise N-d action, Gradient/Divergence/Laplacian '
+           'accumulation, which instance .adjoint/.derivative build) and only PINNED as '
+           'normalised text (tools/extract/finite_diff_pins.json: a change is a broken '
+           'obligation, nothing is derived from it) and tied by the correspondence',
            'NumPy basic slicing / swapaxes / np.subtract / in-place ufuncs (modelled as exact '
            'entry-wise maps on lines along the axis)']
 ASSUMPTIONS = ['floating-point rounding is outside the model; the exact stream uses integer data '
                'and dyadic dx / pad_const so that every operation is exact; the general stream '
                '(dx = 3, 0.1) is compared with tolerance 1e-9*scale + 1e-12',
-               "pad_mode 'symmetric' is read as the code, its comment and the repository's own "
-               "test read it (replicate the edge value, numpy's 'symmetric'), not as the "
-               'docstring says (reflect without doubling)',
+               "pad_mode 'symmetric' = mirror about the edge repeating the outmost value "
+               "(numpy.pad 'symmetric'; equals 'order0' for a one-cell extension): this is what "
+               'the code, its tests and (since the fix recorded in known_findings.json) its '
+               "docstrings say; the reference rule `Ext.replicate` is defined independently and "
+               "the 'reflect' reading is proved not to hold "
+               '(C13.symmetric_is_replicate_not_reflect)',
                "pad_mode 'order1'/'order2' rows 0 and n-1 follow the documented edge-order rule "
                '(one-sided difference of that order, independent of `method`); for order2 with '
                "forward/backward this is NOT the method's stencil on the quadratic extension "
                '(theorem C13.order2_edge_rule / C13.order2_forward_edge_differs)',
+               'adjoint = transpose is claimed and checked ONLY on uniformly weighted spaces '
+               '(uniform_discr without nodes_on_bdry, default weighting, range of the same '
+               'partition): on nodes_on_bdry spaces the half-cell boundary weights make the '
+               'transpose differ from the adjoint (open finding F60 of C05; F56 for weighted power '
+               'spaces) - there only call, derivative, is_linear and the returned instance are '
+               'checked; the Lean theorems are about the plain (unweighted) sum',
                'ndim <= 3 in the executable model and in the theorems about Gradient / Divergence '
-               '/ Laplacian (the property quantifies over ndim 1..3)']
+               '/ Laplacian (the property quantifies over ndim 1..3)',
+               'integer-dtype arrays are outside the quantifier (real/complex dtype): '
+               'finite_diff on an int array raises UFuncTypeError (in-place true division)']
 
 METHODS = ['central', 'forward', 'backward']
 PADS = ['constant', 'symmetric', 'symmetric_adjoint', 'periodic', 'order0', 'order0_adjoint',
@@ -525,15 +546,21 @@ def ref_op_outcome(kind, m, p, shape, axis):
     return 'ok'
 
 
-def build_op(kind, space, m, p, c, axis):
+def build_op(kind, space, m, p, c, axis, ran=None):
+    """`ran`: None, or a space of another dtype to be passed as range= (domain= for div)"""
     import odl
+    nd = space.ndim
     if kind == 'pd':
-        return odl.PartialDerivative(space, axis, method=m, pad_mode=p, pad_const=c)
+        return odl.PartialDerivative(space, axis, range=ran, method=m, pad_mode=p, pad_const=c)
     if kind == 'grad':
-        return odl.Gradient(space, method=m, pad_mode=p, pad_const=c)
+        return odl.Gradient(space, range=None if ran is None else odl.ProductSpace(ran, nd),
+                            method=m, pad_mode=p, pad_const=c)
     if kind == 'div':
-        return odl.Divergence(range=space, method=m, pad_mode=p, pad_const=c)
-    return odl.Laplacian(space, pad_mode=p, pad_const=c)
+        if ran is None:
+            return odl.Divergence(range=space, method=m, pad_mode=p, pad_const=c)
+        return odl.Divergence(domain=odl.ProductSpace(ran, nd), range=space, method=m,
+                              pad_mode=p, pad_const=c)
+    return odl.Laplacian(space, range=ran, pad_mode=p, pad_const=c)
 
 
 def to_elem(sp, arrs):
@@ -575,7 +602,7 @@ def apply_op(op, arrs, use_out, rng):
 
 
 def describe_instance(op):
-    """(neg, kind, method, pad, c) of an operator object returned by .adjoint/.derivative"""
+    """(neg, kind, method, pad, c, is_linear) of an operator returned by .adjoint/.derivative"""
     import odl
     neg = False
     if isinstance(op, odl.OperatorLeftScalarMult):
@@ -588,13 +615,16 @@ def describe_instance(op):
         return 'unexpected class ' + type(op).__name__
     kind = names[type(op)]
     return (int(neg), kind, getattr(op, 'method', None), op.pad_mode, cval(complex(op.pad_const)
-            if np.iscomplexobj(op.pad_const) else float(op.pad_const)))
+            if np.iscomplexobj(op.pad_const) else float(op.pad_const)), int(bool(op.is_linear)))
 
 
 def nd_line(kind, m, p, shape, sides, c, X, axis):
     return 'nd op={} method={} pad={} ndim={} shape={} axis={} dx={} c={} f={}'.format(
         kind, m, p, len(shape), ','.join(str(n) for n in shape), axis if axis is not None else 0,
         ','.join(fs(s) for s in sides), cs(c), ';'.join(cl(x.flat()) for x in X))
+
+
+SPACE_VARIANTS = ['plain', 'plain', 'shifted', 'bdry', 'range32', 'len1']
 
 
 def op_plans(ctx, reps):
@@ -614,9 +644,35 @@ def op_plans(ctx, reps):
                 else:
                     c = rng.choice([0, 0, 0, 3])
                 axis = rng.randrange(nd) if kind == 'pd' else None
+                sv = rng.choice(SPACE_VARIANTS)
+                if sv == 'len1':
+                    if kind == 'pd' and nd > 1:   # the axes that are not differentiated
+                        shape = tuple(n if a == axis else 1 for a, n in enumerate(shape))
+                    else:
+                        sv = 'plain'
                 yield dict(kind=kind, method=m, pad=p, ndim=nd, shape=shape, sides=sides,
-                           cplx=cplx, c=c, axis=axis, use_out=rng.random() < 0.4,
+                           cplx=cplx, c=c, axis=axis, use_out=rng.random() < 0.4, sv=sv,
                            vseed=rng.getrandbits(32))
+
+
+def make_space(pl):
+    """uniform_discr with exactly the planned (dyadic) cell sides.
+    'bdry' (nodes_on_bdry=True) is NOT uniformly weighted (half cells at the boundary)."""
+    import odl
+    shape, sides, nd = pl['shape'], pl['sides'], pl['ndim']
+    dtype = complex if pl['cplx'] else float
+    sv = pl.get('sv', 'plain')
+    lo = [0.0] * nd if sv not in ('shifted', 'bdry') else [-1.5 + a for a in range(nd)]
+    if sv == 'bdry':
+        hi = [l + s * (n - 1) for l, s, n in zip(lo, sides, shape)]
+        space = odl.uniform_discr(lo, hi, shape, dtype=dtype, nodes_on_bdry=True)
+    else:
+        hi = [l + s * n for l, s, n in zip(lo, sides, shape)]
+        space = odl.uniform_discr(lo, hi, shape, dtype=dtype)
+    ran = None
+    if sv == 'range32':
+        ran = space.astype('complex64' if pl['cplx'] else 'float32')
+    return space, ran
 
 
 def run_op_case(pl):
@@ -631,19 +687,22 @@ def run_op_case(pl):
         {'pd': 'PartialDerivative', 'grad': 'Gradient', 'div': 'Divergence',
          'lap': 'Laplacian'}[kind], m if kind != 'lap' else '-', p, shape,
         'complex' if cplx else 'float', c, '' if axis is None else ' axis={}'.format(axis))
+    key += ' space=' + pl.get('sv', 'plain')
     rec = dict(desc=desc, key=key, lines=[], checks=[], problems=[], sig=None)
+    sv = pl.get('sv', 'plain')
     try:
-        space = odl.uniform_discr([0] * nd, [s * n for s, n in zip(sides, shape)], shape,
-                                  dtype=complex if cplx else float)
+        space, ran = make_space(pl)
         if tuple(float(v) for v in space.cell_sides) != tuple(sides):
-            return None
+            rec['problems'].append('generator: cell sides {} instead of the planned {}'.format(
+                tuple(space.cell_sides), sides))
+            return rec
     except Exception as e:  # noqa
         rec['problems'].append('uniform_discr failed: {!r}'.format(e))
         return rec
     cc = cval(c)
     want = ref_op_outcome(kind, m, p, shape, axis)
     try:
-        op = build_op(kind, space, m, p, c, axis)
+        op = build_op(kind, space, m, p, c, axis, ran)
     except ValueError:
         op = None
     except Exception as e:  # noqa
@@ -677,7 +736,7 @@ def run_op_case(pl):
                     break
         if any(v != Z for e in exp for v in e.flat()):
             rec['sig'] = (kind, m, p, nd, 'small' if max(shape) <= 4 else 'large', cplx,
-                          c != 0)
+                          c != 0, sv)
     elif st == 'ok':
         rec['problems'].append('axis too short / mode refused, but a result was returned')
     if st != 'ok' or want != 'ok':
@@ -705,8 +764,12 @@ def run_op_case(pl):
     except Exception as e:  # noqa
         inst = 'err:' + type(e).__name__
         rec['problems'].append('derivative raised {!r}'.format(e))
+    try:
+        lin_flag = int(bool(op.is_linear))
+    except Exception as e:  # noqa
+        lin_flag = 'err:' + type(e).__name__
     rec['checks'].append(('cfg act=derivative kind={} method={} pad={} c={}'.format(
-        kind, m, p, cs(cc)), inst))
+        kind, m, p, cs(cc)), inst, lin_flag))
     # --- adjoint
     linear = not (p == 'constant' and c != 0)
     try:
@@ -718,9 +781,10 @@ def run_op_case(pl):
         aop, ainst = None, 'err:' + type(e).__name__
         rec['problems'].append('adjoint raised {!r}'.format(e))
     rec['checks'].append(('cfg act=adjoint kind={} method={} pad={} c={}'.format(
-        kind, m, p, cs(cc)), ainst))
-    if kind == 'lap' and not linear:
-        return rec  # Laplacian reports linear=True for the affine variant; outside C13
+        kind, m, p, cs(cc)), ainst, lin_flag))
+    if lin_flag != int(linear):
+        rec['problems'].append('is_linear = {} but the operator is {}'.format(
+            lin_flag, 'linear' if linear else 'affine (constant padding with pad_const != 0)'))
     if linear and aop is None:
         rec['problems'].append('linear operator has no adjoint')
     if not linear and aop is not None:
@@ -732,14 +796,18 @@ def run_op_case(pl):
         if st4 != 'ok':
             rec['problems'].append('adjoint call failed: ' + st4)
         else:
+            # ORACLE adjoint = transpose: only where C13 claims it, i.e. on uniformly weighted
+            # spaces.  With nodes_on_bdry the boundary nodes carry half-cell weights and the
+            # transpose is not the adjoint (open finding F60 of C05): not checked there; the
+            # model/code correspondence of the returned instance below still is.
             lhs, rhs = pair(R, Y), pair(X, R4)
-            if lhs != rhs:
+            if sv != 'bdry' and lhs != rhs:
                 rec['problems'].append(
                     '<A x, y> = {} but <x, A^* y> = {} for x={}, y={} (adjoint is not the '
                     'transpose)'.format(cs(lhs), cs(rhs), [cl(x.flat()) for x in X],
                                         [cl(y.flat()) for y in Y]))
             # the model of the returned instance on the same input (sign applied here)
-            neg, k2, m2, p2, c2 = ainst
+            neg, k2, m2, p2, c2, _ = ainst
             if k2 in KINDS and (m2 in METHODS or k2 == 'lap') and p2 in PADS:
                 aline = nd_line(k2, m2 or 'forward', p2, shape, sides, c2, Y,
                                 axis if k2 == 'pd' else None)
@@ -749,7 +817,7 @@ def run_op_case(pl):
 
 
 def ops_stream(ctx, reps, report=True):
-    recs = [r for r in (run_op_case(pl) for pl in op_plans(ctx, reps)) if r is not None]
+    recs = [run_op_case(pl) for pl in op_plans(ctx, reps)]
     lines = [l[0] for r in recs for l in r['lines']] + [c[0] for r in recs for c in r['checks']]
     outs = core.run_driver('C13', lines)
     k = 0
@@ -758,6 +826,7 @@ def ops_stream(ctx, reps, report=True):
     for r in recs:
         ctx.case(r['sig'], sample=r['desc'] if len(ctx.samples) < 12 and r['sig'] else None)
         ctx.hit('op/{}/{}'.format(r['desc']['kind'], r['desc']['pad']))
+        ctx.hit('opspace/' + r['desc'].get('sv', 'plain'))
         for pr in r['problems'][:2]:
             ctx.violation(r['key'], pr, dict(r['desc'], kind2='op'))
         for (line, what, st, R) in r['lines']:
@@ -778,22 +847,26 @@ def ops_stream(ctx, reps, report=True):
             if mv != [a.flat() for a in R]:
                 ctx.disagree(dict(r['desc'], what=what),
                              ';'.join(cl(a.flat()) for a in R)[:600], ans[:600])
-        for (line, inst) in r['checks']:
+        for (line, inst, lin_flag) in r['checks']:
             ans = outs[kc]
             kc += 1
             if isinstance(inst, tuple):
-                neg, kind, m, p, c = inst
+                neg, kind, m, p, c, rlin = inst
                 m = m if m is not None else line.split('method=')[1].split()[0]
-                want = 'ok neg={} kind={} method={} pad={} c={}'.format(neg, kind, m, p, cs(c))
+                want = 'ok linear={} neg={} kind={} method={} pad={} c={} rlinear={}'.format(
+                    lin_flag, neg, kind, m, p, cs(c), rlin)
+            elif inst == 'err:value':
+                want = 'err:value linear={}'.format(lin_flag)
             else:
                 want = inst
             if ans != want:
                 ctx.disagree(dict(r['desc'], what=line), want, ans)
 
 
-def ops_matrix_stream(ctx, shapes):
-    """exhaustive class-level oracle on tiny spaces: matrix(op.adjoint) == matrix(op)^T,
-    every kind x method x pad mode x shape, anisotropic cell sides, real dtype, pad_const 0"""
+def ops_matrix_stream(ctx, shapes, dtypes=(float, complex)):
+    """exhaustive class-level oracle on tiny UNIFORMLY WEIGHTED spaces (uniform_discr without
+    nodes_on_bdry): matrix(op.adjoint) == conjugate transpose of matrix(op), every kind x method
+    x pad mode x shape, anisotropic cell sides, real and complex dtype, pad_const 0"""
     import odl
     sides_all = (1.0, 0.5, 2.0)
 
@@ -801,28 +874,31 @@ def ops_matrix_stream(ctx, shapes):
         cols = []
         for comp in range(n_comp):
             for idx in np.ndindex(*shape):
-                arrs = [np.zeros(shape) for _ in range(n_comp)]
-                arrs[comp][idx] = 1.0
+                arrs = [np.zeros(shape, dtype=dtype) for _ in range(n_comp)]
+                arrs[comp][idx] = 1.0 if dtype is float else 1.0 + 2.0j
                 st, R = apply_op(op, arrs, False, None)
                 if st != 'ok':
                     return st, None
                 cols.append([v for a in R for v in a.flat()])
         return 'ok', cols
-    for shape in shapes:
+    for shape, dtype in itertools.product(shapes, dtypes):
         nd = len(shape)
         sides = sides_all[:nd]
-        space = odl.uniform_discr([0] * nd, [s * n for s, n in zip(sides, shape)], shape)
+        space = odl.uniform_discr([0] * nd, [s * n for s, n in zip(sides, shape)], shape,
+                                  dtype=dtype)
+        unit = (Fraction(1), Fraction(0)) if dtype is float else (Fraction(1), Fraction(2))
         for kind, p in itertools.product(KINDS, PADS):
             for m in (METHODS if kind != 'lap' else ['forward']):
                 for axis in (range(nd) if kind == 'pd' else [None]):
                     if ref_op_outcome(kind, m, p, shape, axis) != 'ok':
                         continue
-                    key = '{} method={} pad_mode={} shape={} dtype=float pad_const=0{}'.format(
+                    key = '{} method={} pad_mode={} shape={} dtype={} pad_const=0{}'.format(
                         {'pd': 'PartialDerivative', 'grad': 'Gradient', 'div': 'Divergence',
                          'lap': 'Laplacian'}[kind], m if kind != 'lap' else '-', p, shape,
-                        '' if axis is None else ' axis={}'.format(axis))
+                        'float' if dtype is float else 'complex',
+                        '' if axis is None else ' axis={}'.format(axis)) + ' space=plain'
                     desc = dict(kind2='opmat', kind=kind, method=m, pad=p, shape=str(shape),
-                                axis=axis)
+                                axis=axis, cplx=dtype is complex)
                     try:
                         op = build_op(kind, space, m, p, 0, axis)
                         st1, A = unit_images(op, nd if kind == 'div' else 1, shape)
@@ -830,19 +906,139 @@ def ops_matrix_stream(ctx, shapes):
                     except Exception as e:  # noqa
                         ctx.violation(key, 'raised {!r}'.format(e), desc)
                         continue
-                    ctx.case(('opmat', kind, m, p, shape, axis))
+                    ctx.case(('opmat', kind, m, p, shape, axis, dtype is complex))
                     ctx.hit('opmat/' + kind)
                     if st1 != 'ok' or st2 != 'ok':
                         ctx.violation(key, 'unit vector evaluation failed: {} {}'.format(st1, st2),
                                       desc)
                         continue
+                    # images of u*e_j with u = 1 (real) or 1+2i (complex): <A(u e_j), u e_i> =
+                    # <u e_j, A^*(u e_i)>  <=>  A[j][i]*conj(u) = u*conj(B[i][j])
                     bad = [(i, j) for j in range(len(A)) for i in range(len(B))
-                           if A[j][i] != B[i][j]]
+                           if cmul(A[j][i], conj(unit)) != cmul(unit, conj(B[i][j]))]
                     if bad:
                         i, j = bad[0]
                         ctx.violation(key, 'matrix(op)[{i}][{j}] = {} but matrix(op.adjoint)[{j}][{i}]'
                                       ' = {} (flat C-order indices; adjoint is not the transpose)'
                                       .format(cs(A[j][i]), cs(B[i][j]), i=i, j=j), desc)
+
+
+# ---------------------------------------------------------------------------
+# direct calls of finite_diff in all documented calling forms
+
+IN_FORMS = ['ndarray', 'list', 'fortran', 'strided']
+OUT_FORMS = ['none', 'none', 'c', 'fortran', 'strided']
+
+
+def variant_plans(ctx, reps):
+    rng = ctx.rng
+    for m, p in itertools.product(METHODS, PADS):
+        for rep in range(reps):
+            nd = rng.choice([1, 1, 2, 2, 3])
+            shape = [rng.choice([1, 2, 3, 4, 5]) for _ in range(nd)]
+            axis = rng.randrange(nd)
+            shape[axis] = rng.choice([2, 3, 4, 5, 6])
+            yield dict(kind='variant', method=m, pad=p, shape=tuple(shape), axis=axis,
+                       neg_axis=rng.random() < 0.4, inform=rng.choice(IN_FORMS),
+                       outform=rng.choice(OUT_FORMS), cplx=rng.random() < 0.3,
+                       dx=rng.choice([1.0, 0.5, 2.0]),
+                       c=rng.choice([0, 2, -1.5]) if p == 'constant' else 0,
+                       kw=rng.random() < 0.5, vseed=rng.getrandbits(32))
+
+
+def run_variant(pl):
+    """finite_diff(f, axis, dx, method, out, pad_mode, pad_const) called the way a user may:
+    array-like input, any memory layout, negative axis, with and without out."""
+    import random
+    d = live()
+    r = random.Random(pl['vseed'])
+    shape, axis, nd = pl['shape'], pl['axis'], len(pl['shape'])
+    base = rand_int_array(r, shape, pl['cplx'])
+    X = XArr.of(base)
+    if pl['inform'] == 'list':
+        f = base.tolist()
+    elif pl['inform'] == 'fortran':
+        f = np.asfortranarray(base)
+    elif pl['inform'] == 'strided':
+        big = np.zeros(tuple(2 * n for n in shape), dtype=base.dtype)
+        f = big[tuple(slice(None, None, 2) for _ in shape)]
+        f[...] = base
+    else:
+        f = base
+    dtype = base.dtype
+    if pl['outform'] == 'none':
+        out = None
+    elif pl['outform'] == 'fortran':
+        out = np.full(shape, np.nan, dtype=dtype, order='F')
+    elif pl['outform'] == 'strided':
+        out = np.full(tuple(2 * n for n in shape), np.nan, dtype=dtype)[
+            tuple(slice(None, None, 2) for _ in shape)]
+    else:
+        out = np.full(shape, np.nan, dtype=dtype)
+    ax = axis - nd if pl['neg_axis'] else axis
+    try:
+        if pl['kw']:
+            res = d.finite_diff(f, axis=ax, dx=pl['dx'], method=pl['method'], out=out,
+                                pad_mode=pl['pad'], pad_const=pl['c'])
+        else:
+            res = d.finite_diff(f, ax, pl['dx'], pl['method'], out, pl['pad'], pl['c'])
+        if out is not None and res is not out:
+            st, R = 'err:did not return the given out array', None
+        elif not isinstance(res, np.ndarray) or res.shape != tuple(shape):
+            st, R = 'err:result is not an array of the input shape', None
+        else:
+            st, R = 'ok', XArr.of(res)
+    except ValueError as e:
+        st, R = ('err:nonfinite-output' if 'non-finite' in str(e) else 'err:value'), None
+    except Exception as e:  # noqa
+        st, R = errname(e), None
+    cc = cval(pl['c'])
+    line = nd_line('pd', pl['method'], pl['pad'], shape, [pl['dx']] * nd, cc, [X], axis)
+    want = 'ok' if shape[axis] >= REF_NMIN.get(pl['pad'], 2) else 'err'
+    problems = []
+    exp = None
+    if want == 'ok':
+        exp = X.along(axis, lambda ln: ref_apply(ln, pl['method'], pl['pad'],
+                                                  cc if pl['pad'] == 'constant' else Z,
+                                                  pl['dx']))
+        if st != 'ok':
+            problems.append('raised/failed: ' + st)
+        elif R.flat() != exp.flat():
+            i = [i for i in R.v if R.v[i] != exp.v[i]][0]
+            problems.append('f={} : out{} = {} but the reference stencil gives {}'.format(
+                cl(X.flat()), list(i), cs(R.v[i]), cs(exp.v[i])))
+    elif st == 'ok':
+        problems.append('axis too short for the edge rule but a result was returned')
+    return line, st, R, problems, exp, want
+
+
+def fd_variants_stream(ctx, reps):
+    recs = []
+    for pl in variant_plans(ctx, reps):
+        recs.append((pl,) + run_variant(pl))
+    outs = core.run_driver('C13', [r[1] for r in recs])
+    for (pl, line, st, R, problems, exp, want), ans in zip(recs, outs):
+        desc = {k: (str(v) if k in ('shape', 'c') else v) for k, v in pl.items()}
+        key = ('finite_diff call form: input={} out={} axis={}{} ndim={} {} method={} '
+               'pad_mode={} shape={} dtype={}').format(
+                   pl['inform'], pl['outform'], pl['axis'], '(negative)' if pl['neg_axis'] else '',
+                   len(pl['shape']), 'keywords' if pl['kw'] else 'positional', pl['method'],
+                   pl['pad'], pl['shape'], 'complex' if pl['cplx'] else 'float')
+        nontrivial = exp is not None and any(v != Z for v in exp.flat())
+        ctx.case(('variant', pl['inform'], pl['outform'], pl['neg_axis'], len(pl['shape']),
+                  pl['method'], pl['pad']) if nontrivial else None)
+        ctx.hit('fdcall/in={}'.format(pl['inform']))
+        ctx.hit('fdcall/out={}'.format(pl['outform']))
+        for pr in problems[:1]:
+            ctx.violation(key, pr, desc)
+        if st != 'ok':
+            ctx.err(st)
+            if ans != st and not (want == 'err' and ans.startswith('err') and
+                                  st in ('err:value', 'err:index')):
+                ctx.disagree(desc, st, ans)
+            continue
+        if not ans.startswith('ok r=') or parse_cl(ans[len('ok r='):]) != R.flat():
+            ctx.disagree(desc, cl(R.flat())[:600], ans[:600])
 
 
 def regenerate(ctx):
@@ -857,6 +1053,7 @@ def run(ctx):
     fd_matrix_stream(ctx, sizes, EXACT_DXC if not ctx.quick else EXACT_DXC[:2])
     fd_vector_stream(ctx, [2, 3, 4, 5, 6, 8, 11], 1 if ctx.quick else 8)
     fd_general_stream(ctx, [2, 3, 5, 7] if ctx.quick else [2, 3, 4, 5, 6, 7, 10])
+    fd_variants_stream(ctx, 4 if ctx.quick else 30)
     ops_stream(ctx, 1 if ctx.quick else 12)
     ops_matrix_stream(ctx, [(2,), (3,), (2, 3)] if ctx.quick else
                       [(2,), (3,), (4,), (5,), (2, 2), (2, 3), (3, 2), (3, 4), (2, 2, 2),
@@ -872,6 +1069,7 @@ def search(ctx, broken):
     look harder on the real code with the oracle."""
     fd_matrix_stream(ctx, list(range(1, 14)), EXACT_DXC)
     fd_vector_stream(ctx, list(range(2, 14)), 6)
+    fd_variants_stream(ctx, 40)
     ops_stream(ctx, 8)
     ops_matrix_stream(ctx, [(2,), (3,), (4,), (6,), (2, 2), (3, 3), (2, 4), (2, 2, 3)])
 
@@ -897,8 +1095,15 @@ def replay(ctx, case):
         ops_matrix_stream(sub, [tuple(_ast.literal_eval(case['shape']))])
         hits = [v for v in sub.violations if v['replay'].get('kind') == case['kind'] and
                 v['replay'].get('method') == case['method'] and v['replay'].get('pad') == case['pad']
-                and v['replay'].get('axis') == case['axis']]
+                and v['replay'].get('axis') == case['axis']
+                and v['replay'].get('cplx', False) == case.get('cplx', False)]
         return hits[0]['what'] if hits else None
+    if kind == 'variant':
+        pl = dict(case)
+        pl['shape'] = tuple(_ast.literal_eval(case['shape']))
+        pl['c'] = _num(case['c'])
+        problems = run_variant(pl)[3]
+        return problems[0][:800] if problems else None
     if kind == 'tables':
         sub = core.Ctx(ctx.pid, ctx.tier, ctx.seed)
         tables_stream(sub)
